@@ -1,6 +1,741 @@
-//! C16 — not implemented yet.
+//! C16 — Peer HTTP responses are framed or rejected.
+//!
+//! Code under test: `distributed::http_client::{request, get, post_json}` over a
+//! real loopback socket, and `parse_response` (hook `verif_parse_response`).
+//!
+//! A case describes the byte stream S a peer sends before it closes (or
+//! stalls): a response (status line, headers with a correct / missing / wrong /
+//! duplicated / unparseable Content-Length, body) cut at a generated point and
+//! written in generated chunk sizes.  The oracle is a function of S only:
+//!
+//!   * the client returns `Err`, or `Ok(r)`;
+//!   * `Ok(r)` requires that S contains a complete head (status line, header
+//!     lines, blank line), `r.status` is the status S carries, every header
+//!     line of S is present in `r.headers` (lower-cased name, trimmed value),
+//!     and `r.body` is the complete body: all bytes after the head — or, when S
+//!     declares a Content-Length n and carries more than n body bytes, possibly
+//!     just the first n;
+//!   * when every Content-Length line of S is a plain number and S carries
+//!     fewer body bytes than each of them, `Ok` is a violation (the body would
+//!     be shorter than declared);
+//!   * the call never panics and returns within its timeout plus a generous
+//!     slack, also when the peer stalls with the socket open.
+//! `Err` is always acceptable (the property allows rejection); how often a
+//! fully well-formed response is accepted is measured, not judged.
 use super::Property;
+use crate::runner::*;
+use proptest::prelude::*;
+use query_engine::distributed::http_client::{self, verif_parse_response, HttpResponse};
+use serde::{Deserialize, Serialize};
+use std::io::{Read, Write};
+use std::time::{Duration, Instant};
+
+const KF_CL: &str = "c16-content-length-ignored";
+
+// ---------------------------------------------------------------------------
+// case model
+// ---------------------------------------------------------------------------
+#[derive(Clone, Debug, Serialize, Deserialize)]
+pub enum BodySpec {
+    Bytes(Vec<u8>),
+    /// `pat` repeated `n` times
+    Repeat { pat: Vec<u8>, n: usize },
+}
+impl BodySpec {
+    fn bytes(&self) -> Vec<u8> {
+        match self {
+            BodySpec::Bytes(b) => b.clone(),
+            BodySpec::Repeat { pat, n } => {
+                let mut v = Vec::with_capacity(pat.len() * n);
+                for _ in 0..*n {
+                    v.extend_from_slice(pat);
+                }
+                v
+            }
+        }
+    }
+}
+
+#[derive(Clone, Debug, Serialize, Deserialize)]
+pub enum ContentLength {
+    Missing,
+    Correct,
+    /// declared = actual + delta (delta may be negative; clamped at 0)
+    Off(i64),
+    /// two Content-Length lines: (actual + d1, actual + d2)
+    Twice(i64, i64),
+    /// a value that is not a decimal number
+    Text(String),
+}
+
+#[derive(Clone, Debug, Serialize, Deserialize)]
+pub struct Response {
+    /// e.g. "HTTP/1.1 200 OK" (no CRLF). `status` = the code it carries, or
+    /// None when the line carries none (then Ok is a violation)
+    pub status_line: String,
+    pub status: Option<u16>,
+    /// extra headers (name, value), printable ASCII, no CR/LF
+    pub headers: Vec<(String, String)>,
+    pub content_length: ContentLength,
+    /// where the Content-Length line(s) go among the headers
+    pub cl_pos: u8,
+    pub body: BodySpec,
+}
+
+#[derive(Clone, Debug, Serialize, Deserialize)]
+pub struct Delivery {
+    /// cut the stream: None = whole; Some(sel) = keep a sel-selected prefix
+    pub cut: Option<Cut>,
+    /// sizes of successive writes (cycled); each >= 1
+    pub writes: Vec<usize>,
+    /// sleep this many milliseconds between writes (0..3)
+    pub gap_ms: u8,
+    /// after the last byte: close, or hold the socket open
+    pub stall: bool,
+}
+#[derive(Clone, Debug, Serialize, Deserialize)]
+pub enum Cut {
+    /// inside the head (status line / headers / blank line): monotone selector
+    Head(u32),
+    /// inside the body: monotone selector over 0..body_len (strictly shorter)
+    Body(u32),
+    /// anywhere
+    Any(u32),
+}
+
+fn pick32(sel: u32, len: usize) -> usize {
+    ((sel as u64 * len as u64) >> 32) as usize
+}
+
+struct Built {
+    stream: Vec<u8>,
+    head_len: usize,
+}
+
+fn build(r: &Response, cut: &Option<Cut>) -> Built {
+    let body = r.body.bytes();
+    let mut lines: Vec<String> = r.headers.iter().map(|(k, v)| format!("{}: {}", k, v)).collect();
+    let actual = body.len() as i64;
+    let cl_lines: Vec<String> = match &r.content_length {
+        ContentLength::Missing => vec![],
+        ContentLength::Correct => vec![format!("Content-Length: {}", actual)],
+        ContentLength::Off(d) => vec![format!("Content-Length: {}", (actual + d).max(0))],
+        ContentLength::Twice(a, b) => vec![
+            format!("Content-Length: {}", (actual + a).max(0)),
+            format!("content-length: {}", (actual + b).max(0)),
+        ],
+        ContentLength::Text(t) => vec![format!("Content-Length: {}", t)],
+    };
+    let at = pick32((r.cl_pos as u32) << 24, lines.len() + 1);
+    for (i, l) in cl_lines.into_iter().enumerate() {
+        lines.insert((at + i).min(lines.len()), l);
+    }
+    let mut s = r.status_line.clone().into_bytes();
+    s.extend_from_slice(b"\r\n");
+    for l in &lines {
+        s.extend_from_slice(l.as_bytes());
+        s.extend_from_slice(b"\r\n");
+    }
+    s.extend_from_slice(b"\r\n");
+    let head_len = s.len();
+    s.extend_from_slice(&body);
+    let keep = match cut {
+        None => s.len(),
+        Some(Cut::Head(sel)) => pick32(*sel, head_len),
+        Some(Cut::Body(sel)) => head_len + pick32(*sel, body.len()),
+        Some(Cut::Any(sel)) => pick32(*sel, s.len() + 1),
+    };
+    s.truncate(keep);
+    Built { stream: s, head_len }
+}
+
+// ---------------------------------------------------------------------------
+// oracle: what the stream S says (independent reader)
+// ---------------------------------------------------------------------------
+#[derive(Debug)]
+struct Said {
+    /// None: S has no complete head
+    head: Option<SaidHead>,
+}
+#[derive(Debug)]
+struct SaidHead {
+    status: Option<u16>,
+    headers: Vec<(String, String)>,
+    rest: Vec<u8>,
+    /// parseable Content-Length values in S
+    cls: Vec<u64>,
+    /// some Content-Length value was not a plain decimal number
+    cl_unparseable: bool,
+    /// the head consists of printable ASCII lines separated by CRLF only (no
+    /// bare CR/LF, control or non-ASCII bytes): only then are its lines judged
+    clean: bool,
+}
+
+fn trim_ows(s: &str) -> &str {
+    s.trim_matches(|c| c == ' ' || c == '\t')
+}
+
+fn read_stream(s: &[u8]) -> Said {
+    let Some(p) = s.windows(4).position(|w| w == b"\r\n\r\n") else {
+        return Said { head: None };
+    };
+    let hb = &s[..p];
+    let clean = (0..hb.len()).all(|i| match hb[i] {
+        b'\r' => hb.get(i + 1) == Some(&b'\n'),
+        b'\n' => i > 0 && hb[i - 1] == b'\r',
+        b'\t' => true,
+        c => (0x20..0x7f).contains(&c),
+    });
+    let head = String::from_utf8_lossy(hb).into_owned();
+    let rest = s[p + 4..].to_vec();
+    let mut lines = head.split("\r\n");
+    let status_line = lines.next().unwrap_or("");
+    // status-line = HTTP-version SP status-code SP reason-phrase
+    let mut toks = status_line.split(' ').filter(|t| !t.is_empty());
+    let version = toks.next().unwrap_or("");
+    let code = toks.next().unwrap_or("");
+    // a tab (or anything else odd) in the status line makes its tokenisation
+    // ambiguous: then the status is not judged
+    let plain = status_line.bytes().all(|b| (0x20..0x7f).contains(&b));
+    let status = if plain && version.starts_with("HTTP/") && code.len() == 3 && code.bytes().all(|b| b.is_ascii_digit()) {
+        code.parse::<u16>().ok()
+    } else {
+        None
+    };
+    let mut headers = vec![];
+    let mut cls = vec![];
+    let mut cl_unparseable = false;
+    for l in lines {
+        if let Some((k, v)) = l.split_once(':') {
+            let (k, v) = (trim_ows(k).to_ascii_lowercase(), trim_ows(v).to_string());
+            if k == "content-length" {
+                if !v.is_empty() && v.bytes().all(|b| b.is_ascii_digit()) && v.len() <= 18 {
+                    cls.push(v.parse::<u64>().unwrap());
+                } else {
+                    cl_unparseable = true;
+                }
+            }
+            headers.push((k, v));
+        }
+    }
+    Said { head: Some(SaidHead { status, headers, rest, cls, cl_unparseable, clean }) }
+}
+
+enum Outcome {
+    Ok(HttpResponse),
+    Err(String),
+}
+
+/// Judge a client outcome against the stream. `obs` gets labels.
+fn judge(stream: &[u8], out: &Outcome, obs: &mut Obs) -> Verdict {
+    let said = read_stream(stream);
+    let r = match out {
+        Outcome::Err(_) => {
+            obs.label("client:Err");
+            if let Some(h) = &said.head {
+                let complete = h.clean && h.status.is_some() && !h.cl_unparseable && h.cls.iter().all(|c| *c == h.rest.len() as u64);
+                if complete {
+                    obs.label("well-formed complete response -> Err (not judged)");
+                    if let Outcome::Err(e) = out {
+                        obs.label(if e.contains("timed out") { "wf-err:timed out" } else { "wf-err:other" });
+                    }
+                }
+            }
+            return Verdict::Pass;
+        }
+        Outcome::Ok(r) => r,
+    };
+    obs.label("client:Ok");
+    let show = |b: &[u8]| -> String {
+        let cut = b.len().min(200);
+        let mut s: String = b[..cut].iter().map(|c| std::ascii::escape_default(*c).to_string()).collect();
+        if cut < b.len() {
+            s.push_str(&format!("…(+{} bytes)", b.len() - cut));
+        }
+        s
+    };
+    let Some(h) = &said.head else {
+        return Verdict::Fail(format!(
+            "Ok(status {}, {} headers, {} body bytes) although the peer closed before the end of the headers; stream = {}",
+            r.status,
+            r.headers.len(),
+            r.body.len(),
+            show(stream)
+        ));
+    };
+    if !h.clean {
+        // bare CR/LF, control or non-ASCII bytes in the head: line structure is
+        // ambiguous, nothing beyond "no panic, no hang" is judged
+        obs.label("unclean head accepted (not judged)");
+        return Verdict::Pass;
+    }
+    match h.status {
+        None => {
+            // no well-formed status line: the client may still find a number; not judged
+            obs.label("odd status line accepted (not judged)");
+        }
+        Some(s) if s != r.status => {
+            return Verdict::Fail(format!("Ok with status {} but the peer sent status {}; stream = {}", r.status, s, show(stream)));
+        }
+        _ => {}
+    }
+    // every header line of S is present (multiset inclusion)
+    let mut have: Vec<(String, String)> = r.headers.iter().map(|(k, v)| (k.to_ascii_lowercase(), trim_ows(v).to_string())).collect();
+    for (k, v) in &h.headers {
+        match have.iter().position(|(hk, hv)| hk == k && hv == v) {
+            Some(i) => {
+                have.swap_remove(i);
+            }
+            None => {
+                return Verdict::Fail(format!(
+                    "Ok but header {:?}: {:?} sent by the peer is missing from the result {:?}; stream = {}",
+                    k,
+                    v,
+                    r.headers,
+                    show(stream)
+                ))
+            }
+        }
+    }
+    // body
+    let rest = &h.rest;
+    // shortness is judged when every Content-Length line of S is a plain
+    // number: fewer body bytes than EVERY declared value cannot be complete
+    let judged_cl = !h.cls.is_empty() && !h.cl_unparseable;
+    let min_cl = h.cls.iter().copied().min().unwrap_or(0);
+    if judged_cl && (rest.len() as u64) < min_cl {
+        let msg = format!(
+            "Ok with a {}-byte body although the peer declared Content-Length {:?} and closed after {} body bytes; stream = {}",
+            r.body.len(),
+            h.cls,
+            rest.len(),
+            show(stream)
+        );
+        if r.body == *rest {
+            obs.label("known:content-length-ignored");
+            return Verdict::Known { id: KF_CL.into(), msg };
+        }
+        return Verdict::Fail(msg);
+    }
+    let body_ok = r.body == *rest || h.cls.iter().any(|c| (*c as usize) <= rest.len() && r.body == rest[..*c as usize]);
+    if !body_ok {
+        return Verdict::Fail(format!(
+            "Ok with body {} but the peer sent body {} (Content-Length values {:?})",
+            show(&r.body),
+            show(rest),
+            h.cls
+        ));
+    }
+    Verdict::Pass
+}
+
+// ---------------------------------------------------------------------------
+// generators
+// ---------------------------------------------------------------------------
+fn status_line() -> impl Strategy<Value = (String, Option<u16>)> {
+    let code = prop_oneof![
+        4 => Just(200u16),
+        1 => Just(204u16),
+        1 => Just(404u16),
+        1 => Just(500u16),
+        1 => Just(503u16),
+        2 => 100u16..600,
+        1 => Just(999u16),
+    ];
+    let reason = prop_oneof![
+        3 => Just("OK".to_string()),
+        1 => Just("".to_string()),
+        1 => Just("Not Found".to_string()),
+        // digits in the reason: a reader taking the wrong token finds another number
+        2 => Just("Error 404 after 200".to_string()),
+        1 => Just("503 Service Unavailable".to_string()),
+        1 => "[A-Za-z0-9 ]{0,20}",
+    ];
+    let good = (prop_oneof![4 => Just("HTTP/1.1"), 1 => Just("HTTP/1.0")], code, reason).prop_map(|(v, c, r)| {
+        let l = if r.is_empty() { format!("{} {}", v, c) } else { format!("{} {} {}", v, c, r) };
+        (l, Some(c))
+    });
+    let bad = prop_oneof![
+        Just("".to_string()),
+        Just("HTTP/1.1".to_string()),
+        Just("HTTP/1.1 OK".to_string()),
+        Just("200 OK".to_string()),
+        Just("HTTP/1.1 2OO OK".to_string()),
+        Just("HTTP/1.1 abc 200".to_string()),
+        Just("garbage".to_string()),
+    ]
+    .prop_map(|l| (l, None));
+    prop_oneof![12 => good, 1 => bad]
+}
+
+fn header() -> impl Strategy<Value = (String, String)> {
+    let name = prop_oneof![
+        Just("Content-Type".to_string()),
+        Just("X-QE-Rows".to_string()),
+        Just("x-qe-elapsed-ms".to_string()),
+        Just("Connection".to_string()),
+        Just("X-Content-Length-Hint".to_string()),
+        "[A-Za-z][A-Za-z0-9-]{0,10}",
+    ];
+    let value = prop_oneof![
+        Just("application/json".to_string()),
+        Just("close".to_string()),
+        Just("42".to_string()),
+        Just("a: b:c".to_string()),
+        Just("".to_string()),
+        "[!-~]([ -~]{0,14}[!-~])?",
+    ];
+    (name, value).prop_filter("not a content-length", |(n, _)| !n.eq_ignore_ascii_case("content-length") && !n.eq_ignore_ascii_case("transfer-encoding"))
+}
+
+fn body(tier: Tier) -> impl Strategy<Value = BodySpec> {
+    let big = tier.pick(16 * 1024usize, 64 * 1024usize);
+    prop_oneof![
+        1 => Just(BodySpec::Bytes(vec![])),
+        4 => prop::collection::vec(any::<u8>(), 1..40).prop_map(BodySpec::Bytes),
+        2 => Just(BodySpec::Bytes(b"{\"status\":\"ok\",\"node_id\":3}".to_vec())),
+        // a body that contains a blank line / something that looks like a head
+        2 => Just(BodySpec::Bytes(b"a\r\n\r\nHTTP/1.1 500 X\r\nContent-Length: 0\r\n\r\nb".to_vec())),
+        2 => (prop::collection::vec(any::<u8>(), 1..9), 1usize..big).prop_map(|(pat, n)| BodySpec::Repeat { n: (n / pat.len()).max(1), pat }),
+    ]
+}
+
+fn response(tier: Tier) -> impl Strategy<Value = Response> {
+    let cl = prop_oneof![
+        3 => Just(ContentLength::Missing),
+        8 => Just(ContentLength::Correct),
+        2 => prop_oneof![1i64..5, 1i64..2000, -5i64..0, -2000i64..0].prop_map(ContentLength::Off),
+        1 => (prop_oneof![Just(0i64), -3i64..4], prop_oneof![Just(0i64), -3i64..4]).prop_map(|(a, b)| ContentLength::Twice(a, b)),
+        1 => prop_oneof![Just("abc".to_string()), Just("-1".to_string()), Just("1e3".to_string()), Just("".to_string()), Just("12 34".to_string()), Just("99999999999999999999999".to_string())]
+            .prop_map(ContentLength::Text),
+    ];
+    (status_line(), prop::collection::vec(header(), 0..5), cl, any::<u8>(), body(tier)).prop_map(|((status_line, status), headers, content_length, cl_pos, body)| Response {
+        status_line,
+        status,
+        headers,
+        content_length,
+        cl_pos,
+        body,
+    })
+}
+
+/// `known_class_weight`: weight of cuts inside the body (on a response with a
+/// Content-Length that is the open finding's class)
+fn delivery(stall_weight: u32) -> impl Strategy<Value = Delivery> {
+    let cut = prop_oneof![
+        6 => Just(None),
+        4 => any::<u32>().prop_map(|s| Some(Cut::Head(s))),
+        2 => any::<u32>().prop_map(|s| Some(Cut::Body(s))),
+        1 => any::<u32>().prop_map(|s| Some(Cut::Any(s))),
+    ];
+    (
+        cut,
+        prop::collection::vec(prop_oneof![2 => 1usize..8, 2 => 8usize..200, 1 => 200usize..70_000], 1..5),
+        prop_oneof![3 => Just(0u8), 1 => 1u8..3],
+        prop::bool::weighted(stall_weight as f64 / 100.0),
+    )
+        .prop_map(|(cut, writes, gap_ms, stall)| Delivery { cut, writes, gap_ms, stall })
+}
+
+fn classify(resp: &Response, built: &Built, d: &Delivery, obs: &mut Obs) -> bool {
+    let full_len = built.head_len + resp.body.bytes().len();
+    let cut_in_head = built.stream.len() < built.head_len;
+    let cut_in_body = !cut_in_head && built.stream.len() < full_len;
+    let declares = !matches!(resp.content_length, ContentLength::Missing);
+    if cut_in_head {
+        obs.label("cut:head");
+    } else if cut_in_body {
+        obs.label(if declares { "cut:body,with-CL" } else { "cut:body,no-CL" });
+    } else {
+        obs.label("cut:none");
+    }
+    obs.label(match resp.content_length {
+        ContentLength::Missing => "cl:missing",
+        ContentLength::Correct => "cl:correct",
+        ContentLength::Off(d) if d > 0 => "cl:too-big",
+        ContentLength::Off(_) => "cl:too-small",
+        ContentLength::Twice(..) => "cl:twice",
+        ContentLength::Text(_) => "cl:text",
+    });
+    if d.stall {
+        obs.label("stall");
+    }
+    let mismatch = matches!(resp.content_length, ContentLength::Off(_) | ContentLength::Twice(..) | ContentLength::Text(_));
+    cut_in_head || cut_in_body || mismatch
+}
+
+// ---------------------------------------------------------------------------
+// check 1: byte level (no socket)
+// ---------------------------------------------------------------------------
+#[derive(Clone, Debug, Serialize, Deserialize)]
+pub struct ParseCase {
+    pub resp: Response,
+    pub cut: Option<Cut>,
+    /// optional byte flips applied to the stream afterwards: (selector, new byte)
+    pub noise: Vec<(u32, u8)>,
+}
+pub struct ParseBytes;
+impl Check for ParseBytes {
+    type Case = ParseCase;
+    fn name(&self) -> &'static str {
+        "parse_response"
+    }
+    fn rule(&self) -> &'static str {
+        "the stream is cut (inside the head or the body), or its Content-Length disagrees with / does not describe the body, or bytes were overwritten"
+    }
+    fn cases(&self, tier: Tier) -> u32 {
+        tier.pick(20_000, 2_000_000)
+    }
+    fn strategy(&self, tier: Tier) -> BoxedStrategy<ParseCase> {
+        (
+            response(tier),
+            delivery(0).prop_map(|d| d.cut),
+            prop_oneof![5 => Just(vec![]), 1 => prop::collection::vec((any::<u32>(), prop_oneof![Just(b'\r'), Just(b'\n'), Just(b':'), Just(b' '), any::<u8>()]), 1..4)],
+        )
+            .prop_map(|(resp, cut, noise)| ParseCase { resp, cut, noise })
+            .boxed()
+    }
+    fn test(&self, c: &ParseCase, obs: &mut Obs) -> Verdict {
+        let built = build(&c.resp, &c.cut);
+        let d = Delivery { cut: c.cut.clone(), writes: vec![1], gap_ms: 0, stall: false };
+        let mut nt = classify(&c.resp, &built, &d, obs);
+        let mut stream = built.stream.clone();
+        for (sel, b) in &c.noise {
+            if !stream.is_empty() {
+                let i = pick32(*sel, stream.len());
+                stream[i] = *b;
+                nt = true;
+                obs.label("noise");
+            }
+        }
+        obs.nontrivial(nt);
+        let out = match std::panic::catch_unwind(|| verif_parse_response(&stream)) {
+            Err(_) => return Verdict::Fail(format!("parse_response panicked on {:?}", String::from_utf8_lossy(&stream))),
+            Ok(Ok(r)) => Outcome::Ok(r),
+            Ok(Err(e)) => Outcome::Err(e.to_string()),
+        };
+        judge(&stream, &out, obs)
+    }
+}
+
+// ---------------------------------------------------------------------------
+// check 2: over a real socket
+// ---------------------------------------------------------------------------
+#[derive(Clone, Debug, Serialize, Deserialize)]
+pub enum Call {
+    Get,
+    PostJson(Vec<u8>),
+    Request { method: String, body: Option<Vec<u8>> },
+}
+#[derive(Clone, Debug, Serialize, Deserialize)]
+pub struct SocketCase {
+    pub resp: Response,
+    pub delivery: Delivery,
+    pub call: Call,
+}
+
+/// timeouts: a closing peer gets a long one (it must not fire); a stalling
+/// peer a short one (it must fire, and promptly)
+const CLOSE_TIMEOUT: Duration = Duration::from_secs(20);
+const STALL_TIMEOUT: Duration = Duration::from_millis(150);
+/// how long past its timeout the call may take before we call it a hang
+/// (very generous: the machine may be heavily loaded)
+const SLACK: Duration = Duration::from_secs(15);
+
+pub struct OverSocket;
+impl Check for OverSocket {
+    type Case = SocketCase;
+    fn name(&self) -> &'static str {
+        "socket"
+    }
+    fn rule(&self) -> &'static str {
+        "the stream is cut (inside the head or the body), or its Content-Length disagrees with / does not describe the body, or the peer stalls, or a complete response arrives in >= 3 writes"
+    }
+    fn cases(&self, tier: Tier) -> u32 {
+        tier.pick(1500, 60_000)
+    }
+    fn workers(&self, _tier: Tier) -> usize {
+        8
+    }
+    fn max_shrink_iters(&self) -> u32 {
+        // a hanging client costs timeout + slack per evaluation
+        24
+    }
+    fn strategy(&self, tier: Tier) -> BoxedStrategy<SocketCase> {
+        let call = prop_oneof![
+            4 => Just(Call::Get),
+            2 => prop::collection::vec(any::<u8>(), 0..200).prop_map(Call::PostJson),
+            1 => (prop_oneof![Just("PUT".to_string()), Just("DELETE".to_string()), Just("HEAD".to_string())], prop::option::of(prop::collection::vec(any::<u8>(), 0..5000)))
+                .prop_map(|(method, body)| Call::Request { method, body }),
+        ];
+        (response(tier), delivery(12), call).prop_map(|(resp, delivery, call)| SocketCase { resp, delivery, call }).boxed()
+    }
+    fn test(&self, c: &SocketCase, obs: &mut Obs) -> Verdict {
+        let built = build(&c.resp, &c.delivery.cut);
+        let stream = built.stream.clone();
+        let faulty = classify(&c.resp, &built, &c.delivery, obs);
+        let nwrites = {
+            let mut off = 0;
+            let mut k = 0;
+            while off < stream.len() {
+                off += c.delivery.writes[k % c.delivery.writes.len()].max(1);
+                k += 1;
+            }
+            k
+        };
+        obs.nontrivial(faulty || c.delivery.stall || nwrites >= 3);
+        if nwrites >= 3 {
+            obs.label("writes>=3");
+        }
+
+        let listener = match std::net::TcpListener::bind("127.0.0.1:0") {
+            Ok(l) => l,
+            Err(e) => return Verdict::Discard(format!("bind: {}", e)),
+        };
+        let addr = listener.local_addr().unwrap().to_string();
+        listener.set_nonblocking(true).ok();
+        let (done_tx, done_rx) = std::sync::mpsc::channel::<()>();
+        let d = c.delivery.clone();
+        let to_send = stream.clone();
+        let server = std::thread::spawn(move || -> Result<(), String> {
+            // accept (bounded wait so the thread can never leak)
+            let t0 = Instant::now();
+            let mut sock = loop {
+                match listener.accept() {
+                    Ok((s, _)) => break s,
+                    Err(e) if e.kind() == std::io::ErrorKind::WouldBlock => {
+                        if t0.elapsed() > Duration::from_secs(60) {
+                            return Err("no connection".into());
+                        }
+                        std::thread::sleep(Duration::from_millis(1));
+                    }
+                    Err(e) => return Err(format!("accept: {}", e)),
+                }
+            };
+            sock.set_nonblocking(false).ok();
+            sock.set_nodelay(true).ok();
+            sock.set_read_timeout(Some(Duration::from_secs(20))).ok();
+            // read the whole request first (head, then Content-Length bytes), like a server does
+            let mut req = vec![];
+            let mut buf = [0u8; 4096];
+            let head_end = loop {
+                if let Some(p) = req.windows(4).position(|w| w == b"\r\n\r\n") {
+                    break p + 4;
+                }
+                match sock.read(&mut buf) {
+                    Ok(0) => return Err("client closed before sending a request".into()),
+                    Ok(n) => req.extend_from_slice(&buf[..n]),
+                    Err(e) => return Err(format!("read request: {}", e)),
+                }
+            };
+            let head = String::from_utf8_lossy(&req[..head_end]).to_ascii_lowercase();
+            let want: usize = head
+                .lines()
+                .find_map(|l| l.strip_prefix("content-length:").map(|v| v.trim().parse().unwrap_or(0)))
+                .unwrap_or(0);
+            while req.len() < head_end + want {
+                match sock.read(&mut buf) {
+                    Ok(0) => break,
+                    Ok(n) => req.extend_from_slice(&buf[..n]),
+                    Err(e) => return Err(format!("read request body: {}", e)),
+                }
+            }
+            // send S in the generated write sizes
+            let mut off = 0;
+            let mut k = 0;
+            while off < to_send.len() {
+                let n = d.writes[k % d.writes.len()].max(1).min(to_send.len() - off);
+                k += 1;
+                if sock.write_all(&to_send[off..off + n]).is_err() {
+                    break; // client went away (timeout): fine
+                }
+                let _ = sock.flush();
+                off += n;
+                if d.gap_ms > 0 && off < to_send.len() && k <= 16 {
+                    std::thread::sleep(Duration::from_millis(d.gap_ms as u64));
+                }
+            }
+            if d.stall {
+                // hold the socket open until the client call has returned
+                let _ = done_rx.recv_timeout(Duration::from_secs(120));
+            }
+            let _ = sock.shutdown(std::net::Shutdown::Write);
+            // drain until the client closes, so that closing never turns into a reset
+            sock.set_read_timeout(Some(Duration::from_millis(500))).ok();
+            while let Ok(n) = sock.read(&mut buf) {
+                if n == 0 {
+                    break;
+                }
+            }
+            Ok(())
+        });
+
+        let timeout = if c.delivery.stall { STALL_TIMEOUT } else { CLOSE_TIMEOUT };
+        let call = c.call.clone();
+        let addr2 = addr.clone();
+        let t0 = Instant::now();
+        let res = std::panic::catch_unwind(std::panic::AssertUnwindSafe(|| {
+            crate::engine::block_on(async move {
+                let fut = async {
+                    match &call {
+                        Call::Get => http_client::get(&addr2, "/healthz", timeout).await,
+                        Call::PostJson(b) => http_client::post_json(&addr2, "/fragment", b, timeout).await,
+                        Call::Request { method, body } => http_client::request(&addr2, method, "/x", Some("application/octet-stream"), body.as_deref(), timeout).await,
+                    }
+                };
+                tokio::time::timeout(timeout + SLACK, fut).await
+            })
+        }));
+        let elapsed = t0.elapsed();
+        let _ = done_tx.send(());
+        let server_result = server.join();
+        let out = match res {
+            Err(_) => return Verdict::Fail("the client call panicked".into()),
+            Ok(Err(_)) => {
+                return Verdict::Fail(format!(
+                    "the client call did not return within its timeout {:?} + {:?} (peer {} after {} bytes)",
+                    timeout,
+                    SLACK,
+                    if c.delivery.stall { "stalled" } else { "closed" },
+                    stream.len()
+                ))
+            }
+            Ok(Ok(Ok(r))) => Outcome::Ok(r),
+            Ok(Ok(Err(e))) => Outcome::Err(e.to_string()),
+        };
+        match &server_result {
+            Ok(Ok(())) => {}
+            Ok(Err(e)) => {
+                // scripted peer could not play its part: nothing was tested
+                if matches!(out, Outcome::Err(_)) {
+                    return Verdict::Discard(format!("scripted peer: {}", e));
+                }
+            }
+            Err(_) => return Verdict::Discard("scripted peer panicked".into()),
+        }
+        if let Outcome::Err(e) = &out {
+            if e.contains("timed out") {
+                obs.label(if c.delivery.stall { "timeout(stall)" } else { "timeout(closing peer! slow machine?)" });
+            }
+        }
+        if elapsed > timeout + Duration::from_secs(5) {
+            obs.label("slow-return(>timeout+5s)");
+        }
+        judge(&stream, &out, obs)
+    }
+}
 
 pub fn property() -> Property {
-    Property { id: "C16", level: "exploration", assumptions: &[], checks: vec![] }
+    Property {
+        id: "C16",
+        level: "exploration",
+        assumptions: &[
+            "the oracle is a function of the byte stream the peer actually sent before closing/stalling",
+            "Err is always acceptable; Ok must carry the stream's status, every header line of the stream, and all body bytes (or exactly Content-Length of them when more were sent)",
+            "a body shorter than the declared Content-Length is judged when every Content-Length line of the stream is a plain decimal number and the stream carries fewer body bytes than each of them",
+            "a status line that is not `HTTP/x.y NNN …` is not judged beyond 'no panic' (the client may find a number in it)",
+            "hang detection: the call must return within timeout + 15 s (150 ms timeout against a stalling peer)",
+        ],
+        checks: vec![Box::new(ParseBytes), Box::new(OverSocket)],
+    }
 }
